@@ -282,8 +282,7 @@ func (x *Exec) ufStub(fn *ssa.Function, args []Value) []Value {
 	}
 	res := fn.Signature.Results()
 	out := make([]Value, res.Len())
-	for i := 0; i < res.Len(); i++ {
-		rt := res.At(i).Type()
+	leafUF := func(rt types.Type, name string) Value {
 		w := 0
 		if !isBool(rt) {
 			ww, _, ok := x.e.lay.intInfo(rt)
@@ -292,7 +291,21 @@ func (x *Exec) ufStub(fn *ssa.Function, args []Value) []Value {
 			}
 			w = ww
 		}
-		out[i] = x.e.C.UF(fmt.Sprintf("uf_%s_%d", sanitize(fn.String()), i), w, ts...)
+		return x.e.C.UF(name, w, ts...)
+	}
+	for i := 0; i < res.Len(); i++ {
+		rt := res.At(i).Type()
+		base := fmt.Sprintf("uf_%s_%d", sanitize(fn.String()), i)
+		if isAgg(rt) {
+			lv := x.e.lay.leavesOf(rt)
+			a := make(Agg, len(lv))
+			for j, lt := range lv {
+				a[j] = leafUF(lt, fmt.Sprintf("%s_%d", base, j))
+			}
+			out[i] = a
+		} else {
+			out[i] = leafUF(rt, base)
+		}
 	}
 	return out
 }
@@ -439,6 +452,10 @@ func builtinIntercepts() map[string]intercept {
 	m[apiPkg+"UF3"] = func(x *Exec, fn *ssa.Function, args []Value) []Value {
 		return []Value{x.e.C.UF("huf_"+sanitize(x.strString(args[0].(Str))), 32, args[1].(*smt.Term), args[2].(*smt.Term), args[3].(*smt.Term))}
 	}
+	m[apiPkg+"Split8"] = func(x *Exec, fn *ssa.Function, args []Value) []Value {
+		t := args[0].(*smt.Term)
+		return []Value{x.e.C.BV(t.W, x.concretize(t, "Split8"))}
+	}
 	m[apiPkg+"Symbolic"] = func(x *Exec, fn *ssa.Function, args []Value) []Value {
 		return []Value{x.e.C.True()}
 	}
@@ -513,6 +530,19 @@ func builtinIntercepts() map[string]intercept {
 		m[n] = nop
 	}
 	m["image.RegisterFormat"] = nop
+	// image.NewNRGBA & co: value-split the rectangle first (symbolic sizes are enumerated), then run the real body
+	for _, n := range []string{"image.NewNRGBA", "image.NewRGBA", "image.NewGray", "image.NewYCbCr", "image.NewNRGBA64", "image.NewRGBA64", "image.NewAlpha"} {
+		m[n] = func(x *Exec, fn *ssa.Function, args []Value) []Value {
+			r := append(Agg(nil), args[0].(Agg)...)
+			for i := range r {
+				if t, ok := r[i].(*smt.Term); ok && !t.IsConst() {
+					r[i] = x.e.C.BV(t.W, x.concretize(t, "image rectangle coordinate"))
+				}
+			}
+			na := append([]Value{r}, args[1:]...)
+			return x.callFunction(fn, na)
+		}
+	}
 	m["(*sync.WaitGroup).Wait"] = func(x *Exec, fn *ssa.Function, args []Value) []Value {
 		x.runPendingGo()
 		return nil
